@@ -73,6 +73,9 @@ def run(ctx):
     lib = prog.lib
     roles = common.role_fields(ctx, lib, want=common.FMT_ROLES)
     fmtmodel.cas1(ctx, lib, roles)
+    from . import memo
+    memo.rules(ctx)
+    memo.check(ctx, lib)
     lows = find_lowercaser(lib)
     if not ctx.floor("CAS-2", "functions calling str::to_lowercase", len(lows), 1):
         return
@@ -83,27 +86,63 @@ def run(ctx):
         args = [ccp.Sym("env"), it] if lb.kind == "closure" else None
         leaves = ccp.Machine([lib]).run(lb, args)
         okc = True
-        for l in leaves:
-            if l.kind != "return":
-                continue
-            v = l.value
+        # per-item decisions: (value stored for the item, the facts about that item, how the original item prints)
+        decisions = []
+        if lb.kind == "closure":
+            for l in leaves:
+                if l.kind == "return":
+                    decisions.append((l.value, list(l.label), it))
+        else:
+            # loop form: every push of a per-item value into the new list, judged with the facts about that iteration's item
+            for l in leaves:
+                if l.kind != "return":
+                    continue
+                for e in l.events:
+                    if e["k"] == "call" and e["callee"].endswith("Vec::<T, A>::push") and len(e["args"]) == 2:
+                        v = e["args"][1]
+                        ids = re.findall(r"#(\w+@bb\d+#\d+)", ccp.show(v))
+                        if not ids:
+                            continue
+                        decisions.append((v, [(a, val) for a, val in l.label if ids[0] in a], ids[0]))
+            seen_d = set()
+            uniq = []
+            for v, lab, item in decisions:
+                k_ = (ccp.show(v), tuple(lab))
+                if k_ not in seen_d:
+                    seen_d.add(k_)
+                    uniq.append((v, lab, item))
+            decisions = uniq
+        if not decisions:
+            ctx.undecided("CAS-2", lb.path, "cannot find the per-test-case decision (closure result or push into the new list)", lb.loc())
+            continue
+        for v, label, item in decisions:
             derived = "to_lowercase" in ccp.show(v)
             if derived:
-                cnt = [a for a, val in l.label if a.startswith("Eq(") and a.count("Iterator>::count(") == 2 and "to_lowercase" in a and val == "True"]
+                cnt = [a for a, val in label if a.startswith("Eq(") and a.count("Iterator>::count(") == 2 and "to_lowercase" in a and val == "True"]
                 if not cnt:
                     okc = False
                     ctx.violation("CAS-2", (lb.path, "length guard"), "a lower-cased test case is used without checking that it has as many chars as the original "
                                   "('İ' lower-cases to two chars and would no longer match)", lb.loc())
-                eng = [a for a, val in l.label if val == "True" and re.search(r"is_match|is_some_and|is_ok_and|case_fold", a) and "to_lowercase" in a]
-                crate_guard = [a for a, val in l.label if val == "True" and re.match(r"^[a-z_:A-Za-z0-9<>]+\(", a)
+                # the guard is itself the engine round trip (head of the atom is a regex-crate call or is_ok_and/is_some_and over one), not merely an atom mentioning one
+                eng = [a for a, val in label if val == "True" and "to_lowercase" in a
+                       and re.match(r"^(?:regex::Regex::(?:is_match|find)\w*|std::result::Result::<T, E>::is_ok_and|std::option::Option::<T>::is_some_and)\(", a)
+                       and re.search(r"regex::Regex(?:Builder)?::(?:new|build)", a)]
+                crate_guard = [a for a, val in label if val == "True" and re.match(r"^[a-z_:A-Za-z0-9<>]+\(", a)
                                and lib.body(a.split("(")[0]) is not None and engine_roundtrip(lib, lib.body(a.split("(")[0]))]
                 if not eng and not crate_guard:
                     guarded_by_engine = False
             else:
-                if not (isinstance(v, ccp.Tmpl) and len(v.parts) == 1 and isinstance(v.parts[0], ccp.Hole) and v.parts[0].v.key() == it.key()) \
-                        and not (isinstance(v, ccp.Call) and v.callee.endswith("clone") and v.args and v.args[0].key() == it.key()):
+                txt = ccp.show(v)
+                orig_ok = False
+                if isinstance(item, ccp.V):
+                    orig_ok = (isinstance(v, ccp.Tmpl) and len(v.parts) == 1 and isinstance(v.parts[0], ccp.Hole) and v.parts[0].v.key() == item.key()) \
+                        or (isinstance(v, ccp.Call) and v.callee.endswith("clone") and v.args and v.args[0].key() == item.key())
+                else:
+                    orig_ok = re.fullmatch(r"`\{[^{}]*#%s(?:\.Some\.0)?\}`" % re.escape(item), txt) is not None \
+                        or re.fullmatch(r"<[^>]*Clone>::clone\([^()]*\([^()]*\([^()]*\)\)#%s(?:\.Some\.0)?\)" % re.escape(item), txt) is not None
+                if not orig_ok:
                     okc = False
-                    ctx.violation("CAS-2", (lb.path, "fallback"), "a path returns %s instead of the original test case" % ccp.show(v), lb.loc())
+                    ctx.violation("CAS-2", (lb.path, "fallback"), "a path returns %s instead of the original test case" % txt[:120], lb.loc())
         if okc:
             ctx.ok("CAS-2", lb.path, {"paths": len(leaves)}, lb.loc())
         # call chain guarded by the setting
